@@ -21,6 +21,8 @@ import numpy as np
 from glue.utils.array import (broadcast_arrays_minimal, categorical_ndarray, combine_slices, find_chunk_shape,
                               index_lookup, iterate_chunks, unbroadcast, unique, view_shape)
 
+from vf import lib_C20_widen as widen
+
 try:
     from numpy.lib.array_utils import byte_bounds
 except ImportError:  # numpy < 2
@@ -251,6 +253,8 @@ def build_strided(shape, pattern, dtype, transposed):
     base = np.arange(n, dtype=float)
     if dtype == "bool":
         base = (base % 3 == 0)
+    elif dtype not in ("float", "bool"):
+        base = (base % 100).astype(dtype)       # other dtypes / byte orders / widths ('>f8', 'int8', '<U2', ...)
     base = base.reshape(base_shape)
     idx = tuple({"n": slice(None), "b": slice(None), "r": slice(None, None, -1), "s": slice(None, None, 2)}[p]
                 for p in pattern)
@@ -272,7 +276,8 @@ def check_unbroadcast_one(ctx, arr, pattern, fp):
     shape = arr.shape
     feats = {"has_broadcast_axis": any(p == "b" and s > 1 for p, s in zip(pattern, shape)),
              "has_negative_stride": any(p == "r" and s > 1 for p, s in zip(pattern, shape)),
-             "zero_size": arr.size == 0, "bool": arr.dtype.kind == "b"}
+             "zero_size": arr.size == 0, "bool": arr.dtype.kind == "b",
+             "dtype_class": "float_or_bool" if arr.dtype in (np.dtype(float), np.dtype(bool)) else arr.dtype.str.lstrip("|")}
     ctx.evaluation(fp, feats["has_broadcast_axis"] or feats["has_negative_stride"])
     ctx.count("unbroadcast_cases")
     if feats["zero_size"]:
@@ -327,6 +332,13 @@ def run_unbroadcast(ctx, shape):
             for transposed in ((False, True) if nd > 1 else (False,)):
                 arr = build_strided(shape, pattern, dtype, transposed)
                 check_unbroadcast_one(ctx, arr, pattern, ["ub", shape, pattern, dtype, transposed])
+    if nd <= 2:
+        for pattern in itertools.product(PATTERNS, repeat=nd):
+            pattern = "".join(pattern)
+            for dtype in (">f8", "float32", "int8", "uint16", ">i4", "complex128", "<U2", "S1", "object"):
+                arr = build_strided(shape, pattern, dtype, nd == 2 and dtype in (">f8", "<U2"))
+                check_unbroadcast_one(ctx, arr, pattern, ["ub", shape, pattern, dtype])
+                ctx.count("unbroadcast_dtype_variant_cases")
     # freshly computed arrays (comparison results, as compute_statistic feeds them)
     fresh = np.arange(int(np.prod(shape)), dtype=float).reshape(shape) > 1
     check_unbroadcast_one(ctx, fresh, "n" * nd, ["ub", shape, "fresh"])
@@ -335,8 +347,17 @@ def run_unbroadcast(ctx, shape):
     combos = list(itertools.product(pats, repeat=2))
     if nd <= 2:
         combos += list(itertools.product(pats, repeat=3))
+        # reversed / strided inputs next to broadcast ones, and the same object passed twice
+        allp = ["".join(p) for p in itertools.product(PATTERNS, repeat=nd)]
+        combos += [(a, b) for a in allp for b in allp if ("r" in a + b or "s" in a + b)]
+        combos += [(a, "same") for a in allp]
     for combo in combos:
-        arrays = [build_strided(shape, p, "float" if k != 1 else "bool", False) for k, p in enumerate(combo)]
+        if combo[-1] == "same":
+            one = build_strided(shape, combo[0], "float", False)
+            arrays, combo = [one, one], (combo[0], combo[0])
+            ctx.count("broadcast_arrays_minimal_same_object_twice")
+        else:
+            arrays = [build_strided(shape, p, "float" if k != 1 else "bool", False) for k, p in enumerate(combo)]
         common = [all(p[i] == "b" for p in combo) and shape[i] > 1 for i in range(nd)]
         ctx.evaluation(["bm", shape, combo], any("b" in p for p in combo) and int(np.prod(shape)) > 1)
         ctx.count("broadcast_arrays_minimal_cases")
@@ -364,13 +385,20 @@ def run_unbroadcast(ctx, shape):
 
 
 # ---------------------------------------------------------------- view_shape
+CORE_TAGS = ("full", "step2", "rev", "back_bounded", "empty", "int")
+
+
 def axis_catalogue(n):
-    """(tag, index) options for one axis of length n (all valid numpy indices)."""
+    """(tag, index) options for one axis of length n (all valid numpy indices): forward, empty, stepped and backward
+    slices with and without bounds, negative bounds, integers (Python and numpy)."""
     opts = [("full", slice(None)), ("empty", slice(0, 0)), ("from1", slice(1, None)), ("step2", slice(None, None, 2)),
             ("to_last", slice(None, -1)), ("odd", slice(1, n + 1, 2)), ("beyond", slice(n, n + 2)),
-            ("rev", slice(None, None, -1))]
+            ("rev", slice(None, None, -1)), ("back_bounded", slice(n - 1, 0, -1)), ("back_step2", slice(None, None, -2)),
+            ("back_empty", slice(0, n, -1)), ("back_from_last", slice(-1, None, -1)), ("back_to_neg", slice(None, -n - 1, -1)),
+            ("neg_start", slice(-2, None)), ("start_gt_stop", slice(2, 1)), ("step3", slice(None, None, 3)),
+            ("big_step", slice(None, None, n + 2)), ("far_start", slice(n + 3, None)), ("np_bounds", slice(np.int64(0), np.int64(n), np.int64(1)))]
     if n > 0:
-        opts += [("int", 0), ("int", n - 1), ("negint", -1)]
+        opts += [("int", 0), ("int", n - 1), ("negint", -1), ("np_int", np.int64(n - 1))]
     return opts
 
 
@@ -385,13 +413,13 @@ def one_d_views(n):
 
 
 def check_view_shape(ctx, shape, kind, view):
-    arr = np.empty(shape, dtype=bool)
+    arr = np.empty(tuple(int(n) for n in shape), dtype=bool)
     try:
-        exp = arr[view].shape if view is not None else shape
+        exp = arr[view].shape if view is not None else arr.shape
     except Exception:
         ctx.count("view_shape_invalid_index_skipped")
         return
-    ctx.evaluation(["vs", shape, kind, repr(view)], view is not None)
+    ctx.evaluation(["vs", [int(n) for n in shape], kind, repr(view)], view is not None)
     ctx.count("view_shape_cases")
     ctx.count("view_shape_kind_" + kind)
     try:
@@ -418,10 +446,33 @@ def run_view_shape(ctx, shape):
             check_view_shape(ctx, shape, "tuple_" + kind, (v,))
     cats = [axis_catalogue(n) for n in shape]
     for k in range(1, nd + 1):
-        for combo in itertools.product(*cats[:k]):
+        if k <= 2 and nd <= 2:
+            combos = itertools.product(*cats[:k])
+        elif k <= 2:
+            # short tuples on 3-d shapes: full catalogue on one axis, core on the other
+            core = [[o for o in c if o[0] in CORE_TAGS] for c in cats]
+            combos = list(itertools.product(*cats[:k])) if k == 1 else \
+                list(itertools.product(cats[0], core[1])) + list(itertools.product(core[0], cats[1]))
+        else:
+            # 3-d: the full catalogue on one axis at a time against a core of six on the two others
+            core = [[o for o in c if o[0] in CORE_TAGS] for c in cats]
+            seen, combos = set(), []
+            for full_axis in range(3):
+                for combo in itertools.product(*[cats[a] if a == full_axis else core[a] for a in range(3)]):
+                    key = repr(combo)
+                    if key not in seen:
+                        seen.add(key)
+                        combos.append(combo)
+        for combo in combos:
             tags = [t for t, _ in combo]
             view = tuple(v for _, v in combo)
-            ints = sum(1 for t in tags if t in ("int", "negint"))
+            if any(t.startswith("back") or t == "rev" for t in tags):
+                ctx.count("view_shape_tuples_with_backward_slice")
+            if any(t in ("empty", "back_empty", "start_gt_stop", "far_start", "beyond") for t in tags):
+                ctx.count("view_shape_tuples_with_empty_slice")
+            if any(t in ("step2", "step3", "odd", "big_step", "back_step2") for t in tags):
+                ctx.count("view_shape_tuples_with_stepped_slice")
+            ints = sum(1 for t in tags if t in ("int", "negint", "np_int"))
             kind = ("short_" if k < nd else "") + ("all_int" if ints == k else "int_slice_mix" if ints else "slices")
             check_view_shape(ctx, shape, kind, view)
             if k < nd and k <= 2:
@@ -430,8 +481,17 @@ def run_view_shape(ctx, shape):
             if k == nd and nd <= 2:
                 check_view_shape(ctx, shape, "newaxis", (None,) + view)
                 check_view_shape(ctx, shape, "newaxis", view + (None,))
+    # the shape given as a list / as numpy integers
+    check_view_shape(ctx, list(shape), "shape_as_list", tuple(slice(None, None, 2) for _ in shape))
+    check_view_shape(ctx, tuple(np.int64(n) for n in shape), "shape_of_numpy_ints", tuple(slice(1, None) for _ in shape))
     # advanced indexing
     if all(s > 0 for s in shape):
+        # duplicate, out-of-order and negative entries; small integer dtypes
+        for dt in ("int64", "int8", "uint8"):
+            idx = tuple(np.array([n - 1, 0, 0, n - 1, n // 2], dtype=dt) for n in shape)
+            check_view_shape(ctx, shape, "index_arrays_duplicates_out_of_order", idx)
+        check_view_shape(ctx, shape, "index_arrays_negative", tuple(np.array([-1, 0, -n]) for n in shape))
+        check_view_shape(ctx, shape, "index_arrays_broadcast", tuple(np.array([0, n - 1]).reshape([2] + [1] * i) for i, n in enumerate(shape)))
         for m in (0, 1, 3):
             idx = tuple(np.arange(m) % s for s in shape)
             check_view_shape(ctx, shape, "index_arrays", idx)
@@ -442,6 +502,11 @@ def run_view_shape(ctx, shape):
         if nd >= 2:
             check_view_shape(ctx, shape, "index_array_and_slice", (np.array([0, 0, shape[0] - 1]),) + (slice(None),) * (nd - 1))
             check_view_shape(ctx, shape, "index_array_and_slice", (slice(None),) * (nd - 1) + (np.array([0]),))
+    if nd == 0:
+        check_view_shape(ctx, shape, "newaxis", (None,))
+        check_view_shape(ctx, shape, "bool_mask", np.array(True))
+        check_view_shape(ctx, shape, "bool_mask", np.array(False))
+        return
     size = int(np.prod(shape))
     for fill in ("none", "all", "third"):
         m = np.zeros(size, bool)
@@ -457,11 +522,12 @@ def run_view_shape(ctx, shape):
 
 
 def vs_shapes(tier):
-    out = []
+    out = [()]
     top = 4 if tier == "quick" else 5
     out.extend(itertools.product(range(0, 7 if tier == "quick" else 10), repeat=1))
-    for nd in (2, 3):
-        out.extend(itertools.product(range(0, top), repeat=nd))
+    out.extend(itertools.product(range(0, top), repeat=2))
+    # 3-d: axis lengths 0, 2, 3 in the quick tier (27 shapes), 0..4 in the thorough tier
+    out.extend(itertools.product((0, 2, 3) if tier == "quick" else range(0, top), repeat=3))
     return out
 
 
@@ -597,12 +663,15 @@ def run_numeric_unique(ctx, tag, nmax):
                 check_cat_array(ctx, list(vals), (2, 2), tag)
 
 
-def run_index_lookup(ctx):
+def run_index_lookup(ctx, first=None):
+    """first=None: data tuples of length 0..2; otherwise the length-3 tuples starting with ALPHABET[first]."""
     item_lists = []
     for k in range(0, len(ALPHABET) + 1):
         item_lists.extend(itertools.permutations(ALPHABET, k))
-    for n in range(0, 4):
+    for n in (range(0, 3) if first is None else [3]):
         for data in itertools.product(ALPHABET, repeat=n):
+            if first is not None and data[0] != ALPHABET[first]:
+                continue
             for items in item_lists:
                 ctx.evaluation(["il", data, items], n >= 2 and 0 < len(items) < len(ALPHABET))
                 ctx.count("index_lookup_cases")
@@ -662,12 +731,27 @@ def cases(tier, seed):
             other.append(["cat", n, first])
     other.append(["num", "int"])
     other.append(["num", "float"])
-    other.append(["il"])
+    other.append(["il", None])
+    for first in range(len(ALPHABET)):
+        other.append(["il", first])
+    for k in range(len(widen.LARGE_LENGTHS)):
+        other.append(["wide", "cs_large", k])
+    for k in range(len(widen.LARGE_SHAPES)):
+        other.append(["wide", "chunks_large", k])
+    for name in widen.DTYPE_ALPHABETS:
+        other.append(["wide", "dtype_alphabet", name])
+    for k in range(2 if tier == "quick" else 6):
+        other.append(["wide", "big_arrays", k])
+    other.append(["wide", "misc", 0])
     # cheap blocks first, then the combine_slices blocks largest first (a time cap then only cuts small lengths)
     for c in other:
         yield c
     for c in cs:
         yield c
+
+
+def setup(ctx):
+    widen.selfcheck_expected_positions()
 
 
 def run_case(ctx, case):
@@ -690,8 +774,24 @@ def run_case(ctx, case):
         run_numeric_unique(ctx, case[1], 4 if ctx.tier == "quick" else 5)
         ctx.count("numeric_unique_blocks")
     elif kind == "il":
-        run_index_lookup(ctx)
+        run_index_lookup(ctx, case[1])
         ctx.count("index_lookup_blocks")
+    elif kind == "wide":
+        what, arg = case[1], case[2]
+        if what == "cs_large":
+            widen.run_cs_large(ctx, arg)
+        elif what == "chunks_large":
+            widen.run_chunks_large(ctx, arg)
+        elif what == "dtype_alphabet":
+            widen.run_dtype_alphabet(ctx, arg)
+        elif what == "big_arrays":
+            widen.run_big_arrays(ctx, arg)
+        else:
+            widen.run_chunks_zero_dim(ctx)
+            widen.run_fault_sequences(ctx)
+            widen.run_index_lookup_variants(ctx)
+            widen.run_categorical_histories(ctx)
+        ctx.count("widening_blocks")
     else:
         raise ValueError(case)
 
@@ -705,7 +805,7 @@ def expected_blocks(tier):
 
 BLOCK_COUNTER = {"cs": "combine_slices_blocks", "ic": "chunk_blocks", "ub": "unbroadcast_blocks",
                  "vs": "view_shape_blocks", "cat": "categorical_blocks", "num": "numeric_unique_blocks",
-                 "il": "index_lookup_blocks"}
+                 "il": "index_lookup_blocks", "wide": "widening_blocks"}
 
 
 def floors(counters, tier):
@@ -720,7 +820,12 @@ def floors(counters, tier):
                      ("iterate_chunks_chunk_shape_cases", 300), ("unbroadcast_cases", 1500),
                      ("unbroadcast_negative_stride_cases", 300), ("unbroadcast_broadcast_axis_cases", 300),
                      ("broadcast_arrays_minimal_cases", 500), ("view_shape_cases", 5000), ("categorical_cases", 100),
-                     ("unique_cases", 150), ("index_lookup_cases", 1000)):
+                     ("unique_cases", 150), ("index_lookup_cases", 1000),
+                     ("combine_slices_large_length_pairs", 20000), ("iterate_chunks_large_shape_cases", 100),
+                     ("view_shape_tuples_with_backward_slice", 5000), ("view_shape_tuples_with_empty_slice", 5000),
+                     ("view_shape_tuples_with_stepped_slice", 5000), ("unbroadcast_dtype_variant_cases", 500),
+                     ("unique_dtype_cases", 1000), ("unique_big_array_cases", 20), ("categorical_history_cases", 100),
+                     ("index_lookup_dtype_cases", 15)):
         if counters.get(key, 0) < low:
             out.append("fewer than %d %s" % (low, key))
     return out
